@@ -25,6 +25,13 @@ type Case struct {
 	// and all kept alive; each must be fresh when allocated and must still read
 	// its own stamp after all the others were allocated and stamped.
 	Mass int `json:"mass,omitempty"`
+	// Via > 0 (pairs only): nothing is sliced before the first store. The buffers
+	// are read directly up to their length, then the first is filled to its
+	// capacity with AppendSample (Via 2: its visible part is stamped with SetSample
+	// first), and only then the other allocations - one made before and one made
+	// after the filling - are inspected, directly first and through a
+	// whole-capacity slice last.
+	Via int `json:"via,omitempty"`
 }
 
 var Types []string
@@ -84,6 +91,12 @@ func Check(c *Case) (res kit.Result) {
 	if c.Mass > 0 {
 		return checkMass(c, ti)
 	}
+	if c.Via < 0 || c.Via > 2 {
+		return
+	}
+	if c.Via > 0 {
+		return checkDirect(c, ti)
+	}
 	a := kit.AllocAny(c.T, signal.Allocator{Channels: c.C, Length: c.L, Capacity: c.K})
 	fa := checkOne(&res, "first allocation", ti, a, c.C, c.L, c.K)
 	if res.Fail != "" {
@@ -129,6 +142,114 @@ func Check(c *Case) (res kit.Result) {
 	return
 }
 
+// checkDirect: see Case.Via.
+func checkDirect(c *Case, ti kit.TypeInfo) (res kit.Result) {
+	z := zero(ti)
+	hdr := func(what string, b kit.AnyBuf, C, L, K int) bool {
+		want := kit.Hdr{Len: C * L, Cap: C * K, Length: L, Capacity: K, Channels: C, BitDepth: ti.Bits}
+		if h := b.Hdr(); h != want {
+			res.Failf("%s: Alloc[%s]({Channels:%d Length:%d Capacity:%d}) reports %+v, want %+v", what, ti.Name, C, L, K, h, want)
+			return false
+		}
+		return true
+	}
+	visibleZero := func(what string, b kit.AnyBuf) bool {
+		for i, n := 0, b.Len(); i < n; i++ {
+			if v := b.Get(i); !kit.SameVal(v, z) {
+				res.Failf("%s: sample %d (read directly, nothing sliced or stored yet) is %s, want 0", what, i, v)
+				return false
+			}
+		}
+		return true
+	}
+	stamp := func(i int) kit.Val { return kit.IV(int64(1 + i%100)) }
+	a := kit.AllocAny(c.T, signal.Allocator{Channels: c.C, Length: c.L, Capacity: c.K})
+	b := kit.AllocAny(c.T, signal.Allocator{Channels: c.C2, Length: c.L2, Capacity: c.K2})
+	if !hdr("first allocation", a, c.C, c.L, c.K) || !hdr("second allocation", b, c.C2, c.L2, c.K2) ||
+		!visibleZero("first allocation", a) || !visibleZero("second allocation", b) {
+		return
+	}
+	// fill the first allocation to its capacity; its first store is an AppendSample when Via == 1 and L < K
+	n0, n := c.C*c.L, c.C*c.K
+	if c.Via == 2 {
+		for i := 0; i < n0; i++ {
+			a.Set(i, stamp(i))
+		}
+	}
+	for i := n0; i < n; i++ {
+		a.AppendSample(stamp(i))
+	}
+	a.AppendSample(stamp(7)) // full: no effect
+	if h := a.Hdr(); h.Len != n || h.Cap != n {
+		res.Failf("first allocation (%d ch, length %d, capacity %d) filled with AppendSample: Len/Cap %d/%d, want %d/%d", c.C, c.L, c.K, h.Len, h.Cap, n, n)
+		return
+	}
+	wantA := func(i int) kit.Val {
+		if i < n0 && c.Via == 1 {
+			return z
+		}
+		return stamp(i)
+	}
+	checkA := func(when string) bool {
+		for i := 0; i < n; i++ {
+			if v := a.Get(i); v.String() != wantA(i).String() {
+				res.Failf("%s: sample %d of the first allocation reads %s, want %s", when, i, v, wantA(i))
+				return false
+			}
+		}
+		return true
+	}
+	if !checkA("after filling it with AppendSample") {
+		return
+	}
+	// an allocation made after the filling, fully visible
+	d := kit.AllocAny(c.T, signal.Allocator{Channels: c.C2, Length: c.K2, Capacity: c.K2})
+	if !hdr("allocation made after the first one was filled", d, c.C2, c.K2, c.K2) ||
+		!visibleZero("allocation made after the first one was filled with AppendSample", d) ||
+		!visibleZero("second allocation, after the first one was filled with AppendSample,", b) {
+		return
+	}
+	var fb kit.AnyBuf
+	if p, v := kit.Try(func() { fb = b.Slice(0, c.K2) }); p {
+		res.Failf("second allocation: Slice(0,%d) over the whole capacity panicked: %v", c.K2, v)
+		return
+	}
+	for i, v := range fb.Snap() {
+		if !kit.SameVal(v, z) {
+			res.Failf("filling the first allocation with AppendSample changed sample %d of the second one's capacity to %s", i, v)
+			return
+		}
+	}
+	// and the other way round: fill the second and the late one, the first keeps its stamps
+	for i := c.C2 * c.L2; i < c.C2*c.K2; i++ {
+		b.AppendSample(kit.IV(int64(101 + i%20)))
+	}
+	for i := 0; i < d.Len(); i++ {
+		d.Set(i, kit.IV(int64(103+i%20)))
+	}
+	if !checkA("after the other allocations were filled") {
+		return
+	}
+	for i := 0; i < b.Len(); i++ {
+		want := kit.IV(int64(101 + i%20))
+		if i < c.C2*c.L2 {
+			want = kit.IV(0)
+		}
+		if v := b.Get(i); v.String() != want.String() {
+			res.Failf("second allocation: sample %d reads %s after filling, want %s", i, v, want)
+			return
+		}
+	}
+	res.Class("nothingSlicedBeforeFirstStore")
+	if c.L < c.K && c.Via == 1 {
+		res.Class("firstStoreIsAppendSample")
+	}
+	if ti.Named {
+		res.Class("namedType")
+	}
+	return
+}
+
 func checkMass(c *Case, ti kit.TypeInfo) (res kit.Result) {
 	if c.Mass > 1<<18 || c.C*c.K > 4096 || c.C*c.K == 0 {
 		return
@@ -165,7 +286,7 @@ func checkMass(c *Case, ti kit.TypeInfo) (res kit.Result) {
 func FP(c *Case) uint64 {
 	h := kit.NewHasher()
 	h.Str(c.T)
-	h.Ints([]int{c.C, c.L, c.K, c.C2, c.L2, c.K2, c.Mass})
+	h.Ints([]int{c.C, c.L, c.K, c.C2, c.L2, c.K2, c.Mass, c.Via})
 	return h.Sum()
 }
 
@@ -188,6 +309,9 @@ func Gen(t *rapid.T) *Case {
 	c.C, c.L, c.K = genShape(t, "a")
 	if kit.Chance(t, "mass", 1, 25) && c.C*c.K > 0 && c.C*c.K <= 512 {
 		c.Mass = rapid.IntRange(2, 3000).Draw(t, "massN")
+	}
+	if c.Mass == 0 && rapid.IntRange(0, 2).Draw(t, "viaSel") == 0 {
+		c.Via = rapid.IntRange(1, 2).Draw(t, "via")
 	}
 	if rapid.Bool().Draw(t, "sameShape") {
 		c.C2, c.L2, c.K2 = c.C, c.L, c.K
